@@ -166,7 +166,7 @@ func drawEcies(t *rapid.T, label string, usableOnly bool) (builder, string, uint
 	case 1:
 		s.salt = []byte{}
 	default:
-		s.salt = gen.BytesN(t, label+"_salt", rapid.IntRange(1, 40).Draw(t, label+"_salt_len"))
+		s.salt = gen.BytesN(t, label+"_salt", ceiling(t, label+"_salt_len", rapid.IntRange(1, 40).Draw(t, label+"_salt_len"), HugeSaltSize))
 	}
 	v, id := drawVariantID(t, label, threeVariants...)
 	if s.curve == "X25519" {
